@@ -34,7 +34,7 @@ for C in $ID "$@"; do
   echo "$ID-$X check=$C exit=$RC mach=$MACH keys=[$KEYS]"
   RES="$RES$C:$RC:$KEYS;"
 done
-git -C /repo checkout -- .
+git -C /repo checkout -- . && git -C /repo clean -fdq -- src
 rm -rf $SCR
 mkdir -p $OUT && cp $S/patch.diff $OUT/patch.diff && cp $S/demo.rs $OUT/demo.rs && cp $S/meta.json $OUT/agent_meta.json
 python3 - "$ID" "$X" "$SUITE" "$DEMO_P" "$DEMO_C" "$RES" <<'PY'
